@@ -75,10 +75,15 @@ def jsonable(o, depth=0):
     if isinstance(o, (list, tuple)):
         return [jsonable(x, depth + 1) for x in o]
     if isinstance(o, dict):
-        return {
-            (k if isinstance(k, str) else repr(k)): jsonable(v, depth + 1)
-            for k, v in o.items()
-        }
+        out = {}
+        for k, v in list(o.items()):
+            if not isinstance(k, str):
+                try:
+                    k = repr(k)
+                except BaseException:
+                    k = "<%s unrepresentable key>" % type(k).__name__
+            out[jsonable(k)] = jsonable(v, depth + 1)
+        return out
     if isinstance(o, (set, frozenset)):
         return sorted((jsonable(x, depth + 1) for x in o), key=repr)
     try:
